@@ -51,13 +51,26 @@ class BatchifyVC(V.VC):
             return self.aff_none
         raise V.VCError(f"needs contract: {src} is None")
 
+    def names(self):
+        """loop counter and step variables, read off the real while loop:  while <c> < len(X): ... <c> += <b>"""
+        import ast
+        if not hasattr(self, "_names"):
+            w = [n for n in ast.walk(self.fn) if isinstance(n, ast.While)]
+            c = w[0].test.left.id if w and isinstance(w[0].test, ast.Compare) and isinstance(w[0].test.left, ast.Name) else "j"
+            aug = [n for n in ast.walk(w[0]) if isinstance(n, ast.AugAssign) and getattr(n.target, "id", None) == c] if w else []
+            b = aug[0].value.id if aug and isinstance(aug[0].value, ast.Name) else "batch_size"
+            self._names = (c, b)
+        return self._names
+
     def invariant(self, st, o):
-        j, b, t, cov = st.env["j"], st.env["batch_size"], st.ghost["t"], st.ghost["cov"]
+        c, bn = self.names()
+        j, b, t, cov = st.env[c], st.env[bn], st.ghost["t"], st.ghost["cov"]
         return [("j >= 0", j >= 0), ("batch_size >= 1", b >= 1), ("cov == min(j, n)", cov == V.zmin(j, self.n)),
                 ("j == t*batch_size", j == t * b), ("t == 0 or (t-1)*batch_size < n", z3.Or(t == 0, (t - 1) * b < self.n))]
 
     def variant(self, st, o):
-        return self.n - st.env["j"] + st.env["batch_size"]
+        c, bn = self.names()
+        return self.n - st.env[c] + st.env[bn]
 
     def havoc(self, st, o, names):
         super().havoc(st, o, names)
@@ -66,7 +79,7 @@ class BatchifyVC(V.VC):
 
     def on_yield(self, value, st):
         xb, ab = value
-        b = st.env["batch_size"]
+        b = st.env[self.names()[1]]
         ok_x = isinstance(xb, V.Opaque) and xb.tag == "gather" and isinstance(xb.a[0], V.Opaque) and xb.a[0].tag == "X" \
             and isinstance(xb.a[1], V.Slice) and xb.a[1].base == "perm"
         self.prove("yield: X_batch is X[part] with part a slice of the permutation", st.assm, ok_x)
@@ -95,7 +108,7 @@ class BatchifyVC(V.VC):
         st.env.update(X=V.Opaque("X"), affinity_matrix=V.Opaque("A"), random_state=V.Opaque("seed"))
         st.ghost.update(t=z3.IntVal(0), cov=z3.IntVal(0))
         self.run(self.fn.body, st)
-        b = st.env["batch_size"]
+        b = st.env[self.names()[1]]
         self.prove("exit: every position of the permutation covered exactly once, in order (cov == n)", st.assm, st.ghost["cov"] == self.n)
         self.prove("exit: number of batches t is ceil(n / batch_size)", st.assm,
                    z3.And((st.ghost["t"] - 1) * b < self.n, self.n <= st.ghost["t"] * b))
@@ -142,19 +155,32 @@ class ValScoreVC(V.VC):
         raise V.VCError(f"needs contract: length of {v}")
 
     def invariant(self, st, o):
-        j, t, cov, ws = st.env["j"], st.ghost["t"], st.ghost["cov"], st.ghost["wsum"]
+        j, t, cov, ws = st.env[self.counter()], st.ghost["t"], st.ghost["cov"], st.ghost["wsum"]
         return [("j >= 0", j >= 0), ("j == t*batch_size", j == t * self.b), ("cov == min(j, n)", cov == V.zmin(j, self.n)),
                 ("sum of block weights == samples covered", ws == cov)]
 
     def variant(self, st, o):
-        return self.n - st.env["j"] + self.b
+        return self.n - st.env[self.counter()] + self.b
 
     def havoc(self, st, o, names):
         super().havoc(st, o, names)
         for g in ("t", "cov", "wsum"):
             st.ghost[g] = z3.FreshInt(g)
 
+    def counter(self):
+        import ast
+        w = [n for n in ast.walk(self.fn) if isinstance(n, ast.While)]
+        return w[0].test.left.id if w and isinstance(w[0].test, ast.Compare) and isinstance(w[0].test.left, ast.Name) else "j"
+
+    def acc_name(self):
+        """the accumulator: the variable that is divided by len(X) at the end"""
+        import ast
+        d = [n for n in ast.walk(self.fn) if isinstance(n, ast.AugAssign) and isinstance(n.op, ast.Div)]
+        return d[0].target.id if d else "validation_gemini"
+
     def augassign(self, name, op, cur, v, st):
+        if name == self.acc_name():
+            name = "validation_gemini"
         if name == "validation_gemini" and op == "Add":
             # v must be gemini_objective(y_pred, affinity) * len(X_batch)
             ok = isinstance(v, V.Opaque) and v.tag == "binop:Mult"
@@ -315,8 +341,8 @@ def vc_obligations():
             b = None if none else int(model.get("self_batch_size", 1))
             return native_batchify(n, b, model.get("affinity_is_None") == "True")
         obs += _to_obs("_batchify", "gemclus._base_gemini.DiscriminativeModel._batchify", raw, rp)
-    except V.VCError as e:
-        obs.append(Ob("_batchify:within the VC subset", UNDECIDED, "vc", "P", {"why": str(e)},
+    except Exception as e:
+        obs.append(Ob("_batchify:within the VC subset", UNDECIDED, "vc", "P", {"why": repr(e)},
                       fn="gemclus._base_gemini.DiscriminativeModel._batchify"))
     if any(o.status != PROVED for o in obs):
         grid = [(n, b, an) for n in range(1, 13) for b in [None] + list(range(1, 15)) for an in (False, True)]
@@ -326,8 +352,8 @@ def vc_obligations():
         raw = ValScoreVC(BS.compute_val_score).go()
         obs += _to_obs("compute_val_score", "gemclus.sparse._base_sparse.compute_val_score", raw,
                        lambda m: native_val_score(int(m.get("n", 1)), int(m.get("batch_size", 1)), m.get("y_is_None") != "True"))
-    except V.VCError as e:
-        obs.append(Ob("compute_val_score:within the VC subset", UNDECIDED, "vc", "P", {"why": str(e)},
+    except Exception as e:
+        obs.append(Ob("compute_val_score:within the VC subset", UNDECIDED, "vc", "P", {"why": repr(e)},
                       fn="gemclus.sparse._base_sparse.compute_val_score"))
     if any(o.status != PROVED for o in obs[n0:]):
         grid = [(n, b, yg) for n in range(1, 12) for b in range(1, 14) for yg in (True, False)]
